@@ -36,6 +36,7 @@ def to_asdf(filename: str | Path, dct: Mapping[str, Any]) -> None:
     frame_dct: Mapping[str, Sequence[float]] = df.to_dict(orient="list")
 
     dct["data"]["charge"]["frame"] = frame_dct
+    dct["data"]["charge"]["frame_index"] = df.index.to_list()
 
     # Convert 'Dataset(s)' into a 'dict(s)'
     data: Mapping[str, xr.Dataset] = dct["data"]["data"]
@@ -87,7 +88,7 @@ def from_asdf(filename: str | Path) -> Iterator[Mapping[str, Any]]:
 
         # Convert a 'dict' to a 'DataFrame'
         frame_dct: Mapping[str, Sequence[float]] = dct["data"]["charge"]["frame"]
-        df = pd.DataFrame(frame_dct)
+        df = pd.DataFrame(frame_dct, index=dct["data"]["charge"].get("frame_index"))
 
         dct["data"]["charge"]["frame"] = df
 
